@@ -14,6 +14,7 @@ class Intercepts:
         self.suffix = {}
         self.patterns = []
         self.cache = {}
+        self.cond = {}   # fid -> (option flag, fn): models enabled per harness through //verif: stubs=
 
     def lookup(self, fid):
         try:
@@ -46,6 +47,14 @@ def exact(*names):
     def deco(f):
         for n in names:
             I.exact[n] = f
+        return f
+    return deco
+
+
+def exact_if(flag, *names):
+    def deco(f):
+        for n in names:
+            I.cond[n] = (flag, f)
         return f
     return deco
 
